@@ -8,3 +8,5 @@ import BufrProps.C02
 #print axioms Bufr.C02.C02_af_column
 #print axioms Bufr.C02.C02_character_column
 #print axioms Bufr.C02.C02_equal_strings_same_octets
+#print axioms Bufr.C02.C02_static_compressed
+#print axioms Bufr.C02.C02_position
